@@ -362,9 +362,29 @@ func genAbs(r *Rng, kind string, tier string) *absMsg {
 	return a
 }
 
+// everything a caller can observe of a message value, incl. the zone its timestamps are expressed in
+func deepSnapshot(v interface{}) string {
+	switch m := v.(type) {
+	case *protocol.Message:
+		return fmt.Sprintf("%q|%d|%s|%s", m.Tag, m.Timestamp, renderVal(m.Record), renderOpts(m.Options))
+	case *protocol.MessageExt:
+		return fmt.Sprintf("%q|%s|%s|%s", m.Tag, m.Timestamp.Time.String(), renderVal(m.Record), renderOpts(m.Options))
+	case *protocol.ForwardMessage:
+		return fmt.Sprintf("%q|%s|%s", m.Tag, deepEntries(m.Entries), renderOpts(m.Options))
+	case *protocol.PackedForwardMessage:
+		return fmt.Sprintf("%q|%x|%s", m.Tag, m.EventStream, renderOpts(m.Options))
+	case *protocol.EntryExt:
+		return m.Timestamp.Time.String() + "|" + renderVal(m.Record)
+	case *protocol.EntryList:
+		return deepEntries(*m)
+	}
+	return ""
+}
+
 // rtLine: "<enc> <dec> <token>" + obs
 func rtExec(a *absMsg, r *Rng, ep, dp string) (args []string, obs string) {
 	v := a.build(r)
+	before := deepSnapshot(v)
 	var out []byte
 	var err error
 	prefix := []byte{0xde, 0xad, 0xbe}
@@ -398,6 +418,9 @@ func rtExec(a *absMsg, r *Rng, ep, dp string) (args []string, obs string) {
 	args = []string{ep, dp, a.token(tree)}
 	if obs != "" {
 		return args, obs
+	}
+	if deepSnapshot(v) != before {
+		return args, "encoder-modified-its-input"
 	}
 	return args, hx(out) + " " + decObs(kindType(a.kind), dp, nil, false, out)
 }
